@@ -584,7 +584,8 @@ func postprocessParsed(lookup objLookup) {
 		for _, l := range lookup[prefix] {
 			for _, c := range l {
 				tokens := strings.Split(c.parsed, " ")
-				if len(tokens) == 6 {
+				// IOS: "ipv6 route vrf NAME destination next_hop" has no metric.
+				if len(tokens) == 6 && tokens[2] != "vrf" {
 					c.parsed = strings.Join(tokens[:5], " ")
 				}
 			}
